@@ -894,8 +894,11 @@ def html_template_execute(I, args, ins):
                 if f['t'] != 'string':
                     fields_ok = False
     dt = data.dyn if isinstance(data, Iface) else None
+    if dt is not None and I.prog.kind(dt) == 'ptr':
+        dt = I.prog.elem(dt)
+    text = _template_text(I, tmpl)
     ctx.ghost.setdefault('templates', []).append({'kind': 'html', 'data': dv, 'dtype': dt, 'plain_string_fields': fields_ok})
-    body = _tag_bytes(I, ('html-escaped', dt, dv), 'html')
+    body = _tag_bytes(I, ('html-escaped', dt, dv, text, fields_ok), 'html')
     r = I.invoke(ctx.force(w), 'Write', [body], ins)
     return ctx.force(r[1])
 
@@ -910,10 +913,57 @@ def text_template_execute(I, args, ins):
         dv = data.val
         if I.prog.kind(data.dyn) == 'ptr':
             dv = ctx.load(ctx.force(dv))
+    dt = data.dyn if isinstance(data, Iface) else None
+    if dt is not None and I.prog.kind(dt) == 'ptr':
+        dt = I.prog.elem(dt)
     ctx.ghost.setdefault('templates', []).append({'kind': 'text', 'data': dv, 'plain_string_fields': True})
-    body = _tag_bytes(I, ('text-unescaped', dv), 'rawhtml')
+    body = _tag_bytes(I, ('text-unescaped', dt, dv, _template_text(I, tmpl), True), 'rawhtml')
     r = I.invoke(ctx.force(w), 'Write', [body], ins)
     return ctx.force(r[1])
+
+
+def _template_text(I, tmpl):
+    p = I.ctx.force(tmpl)
+    if isinstance(p, Ptr):
+        return (I.ctx.ghost.get('template_objs', {}).get(p.cell) or {}).get('text')
+    return None
+
+
+def _body_tag(I, body):
+    ctx = I.ctx
+    for e in I.slice_elems(body):
+        info = ctx.ghost.get('bytes_tag_term', {}).get(str(e)) if is_sym(e) else None
+        if info is not None and info[0] in ('html-escaped', 'text-unescaped'):
+            return info
+    return None
+
+
+@intrinsic('verifFormInert')
+def i_form_inert(I, args, ins):
+    """The emitted form came out of an html/template whose data has only plain string fields."""
+    info = _body_tag(I, args[0])
+    return info is not None and info[0] == 'html-escaped' and bool(info[4])
+
+
+@intrinsic('verifFormField')
+def i_form_field(I, args, ins):
+    """Value bound to the form's action (name "action") or to the hidden input `name`, read from the template text."""
+    import re as _re2
+    info = _body_tag(I, args[0])
+    name = args[1]
+    if info is None or not isinstance(info[3], str) or not isinstance(name, str):
+        return TupleV(('', False))
+    text = info[3]
+    if name == 'action':
+        m = _re2.search(r'action="\{\{\.(\w+)\}\}"', text)
+    else:
+        m = _re2.search(r'name="%s"[^>]*value="\{\{\.(\w+)\}\}"' % _re2.escape(name), text)
+    if m is None:
+        return TupleV(('', False))
+    fields = [f['n'] for f in I.prog.fields(info[1])]
+    if m.group(1) not in fields:
+        return TupleV(('', False))
+    return TupleV((info[2][fields.index(m.group(1))], True))
 
 
 @stub('html/template.Must', 'text/template.Must')
